@@ -36,6 +36,8 @@ def judge(cfg, s, out):
         # without a separator the whole text is the one segment the leading-zero clause speaks about
         if not kz and len(out) > 1 and out.isascii() and out.isdigit() and out[0] == "0":
             return ("sanitize-leading-zero-no-separator", "all-digit result %r keeps a leading zero although zeros are not kept" % out)
+        if lower and any("A" <= ch <= "Z" for ch in out):
+            return ("sanitize-lowercase-ignored", "lowercase was asked for, %r still has upper-case ASCII letters" % out)
         return None
     adm = ref.admissible(s, sep, lower, kz, ml)
     if out in adm:
@@ -148,6 +150,8 @@ TPL_COMBOS = [
     ("separator='-.', lowercase=true, max_length=6", dict(separator="-.", lowercase=True, keep_zeros=False, max_length=6)),
     ("separator='\u00b7', max_length=4", dict(separator="\u00b7", lowercase=False, keep_zeros=False, max_length=4)),
     ("separator='::'", dict(separator="::", lowercase=False, keep_zeros=False, max_length=None)),
+    ("lowercase=true", dict(separator=None, lowercase=True, keep_zeros=False, max_length=None)),
+    ("lowercase=true, keep_zeros=true", dict(separator=None, lowercase=True, keep_zeros=True, max_length=None)),
     ("separator='---', max_length=4", dict(separator="---", lowercase=False, keep_zeros=False, max_length=4)),
     ("separator='___', max_length=9", dict(separator="___", lowercase=False, keep_zeros=False, max_length=9)),
     ("separator='-.-', max_length=5", dict(separator="-.-", lowercase=False, keep_zeros=False, max_length=5)),
